@@ -53,6 +53,81 @@ def _is_simple(e):
     return False
 
 
+def _callable_chain(e):
+    """a conditional expression (possibly a chain) all of whose alternatives are references to functions /
+    bound super() methods"""
+    if isinstance(e, ast.IfExp):
+        return _callable_chain(e.body) and _callable_chain(e.orelse) and not _all_none(e)
+    if isinstance(e, ast.Constant) and e.value is None:
+        return True  # "no function for this case": the uses test for it
+    if isinstance(e, ast.Attribute) and isinstance(e.value, ast.Call) and isinstance(e.value.func, ast.Name) and e.value.func.id == "super":
+        return True
+    if isinstance(e, ast.Attribute) and isinstance(e.value, ast.Name) and e.value.id in ("self", "cls") and e.attr.startswith("_") and not e.attr.startswith("__"):
+        return True
+    return _callable_like(e) or (isinstance(e, ast.Attribute) and isinstance(e.value, ast.Name) and e.value.id in ("operator", "torch", "F", "__class__"))
+
+
+def _all_none(e):
+    if isinstance(e, ast.IfExp):
+        return _all_none(e.body) and _all_none(e.orelse)
+    return isinstance(e, ast.Constant) and e.value is None
+
+
+def _has_none(e):
+    if isinstance(e, ast.IfExp):
+        return _has_none(e.body) or _has_none(e.orelse)
+    return isinstance(e, ast.Constant) and e.value is None
+
+
+def _is_set_test(e):
+    """`chain is not None` as a test over the chain's own conditions"""
+    if not isinstance(e, ast.IfExp):
+        return ast.Constant(value=not (isinstance(e, ast.Constant) and e.value is None))
+    a, b = _is_set_test(e.body), _is_set_test(e.orelse)
+    t = copy.deepcopy(e.test)
+    nt = ast.UnaryOp(op=ast.Not(), operand=copy.deepcopy(e.test))
+    ca = a.value if isinstance(a, ast.Constant) else None
+    cb = b.value if isinstance(b, ast.Constant) else None
+    if ca is True and cb is True:
+        return ast.Constant(value=True)
+    if ca is False and cb is False:
+        return ast.Constant(value=False)
+    if ca is True:
+        return t if cb is False else ast.BoolOp(op=ast.Or(), values=[t, b])
+    if ca is False:
+        return nt if cb is True else ast.BoolOp(op=ast.And(), values=[nt, b])
+    if cb is True:
+        return ast.BoolOp(op=ast.Or(), values=[nt, a])
+    if cb is False:
+        return ast.BoolOp(op=ast.And(), values=[t, a])
+    return ast.BoolOp(op=ast.Or(), values=[ast.BoolOp(op=ast.And(), values=[t, a]), ast.BoolOp(op=ast.And(), values=[nt, b])])
+
+
+def _callable_like(e):
+    """a reference to a function: operator.gt / torch.exp / __class__.f / a plain (module-level) name"""
+    if isinstance(e, ast.Attribute):
+        return isinstance(e.value, ast.Name) and e.value.id in ("operator", "torch", "F", "__class__", "np", "math", "torchutils")
+    return isinstance(e, ast.Name) and e.id.startswith("_")
+
+
+def _simple_chain_tests(e):
+    return not isinstance(e, ast.IfExp) or (_simple_test(e.test) and _simple_chain_tests(e.body) and _simple_chain_tests(e.orelse))
+
+
+def _simple_test(e):
+    """a test that may be evaluated earlier / more than once: names, attribute reads, `not`, identity and
+    equality comparisons of such, bool(..) of such"""
+    if _is_simple(e):
+        return True
+    if isinstance(e, ast.Compare) and len(e.ops) == 1 and isinstance(e.ops[0], (ast.Is, ast.IsNot, ast.Eq, ast.NotEq)):
+        return (_is_simple(e.left) or _cheap_key(e.left)) and (_is_simple(e.comparators[0]) or _cheap_key(e.comparators[0]))
+    if isinstance(e, ast.Call) and isinstance(e.func, ast.Name) and e.func.id == "bool" and len(e.args) == 1 and not e.keywords:
+        return _simple_test(e.args[0])
+    if isinstance(e, ast.UnaryOp) and isinstance(e.op, ast.Not):
+        return _simple_test(e.operand)
+    return False
+
+
 def _is_pure(e):
     """built from names, constants, attribute reads, comparisons and arithmetic only (no calls)"""
     for n in ast.walk(e):
@@ -137,9 +212,69 @@ class _Expr(ast.NodeTransformer):
     (lambda p: E)(args) -> E[p := args] ; map(f, S) -> (f(t) for t in S) ; f(**dict(zip(names, values))) ->
     f(name=value, ..) ; f(**{k: E for k in consts}) -> f(k1=E1, ..) ; self.CONST -> the class-level literal"""
 
-    def __init__(self, imported_operator_names=(), class_consts=None):
+    def __init__(self, imported_operator_names=(), class_consts=None, module_tables=None, class_tables=None, class_fns=(), class_name=None, kw_helpers=None):
+        self.kw_helpers = kw_helpers or {}
         self.opnames = set(imported_operator_names)
         self.class_consts = class_consts or {}
+        self.module_tables = module_tables or {}
+        self.class_tables = class_tables or {}
+        self.class_fns = set(class_fns)
+        self.class_name = class_name
+
+    def visit_Subscript(self, node):
+        self.generic_visit(node)
+        if not isinstance(node.ctx, ast.Load):
+            return node
+        table, fns = None, ()
+        v = node.value
+        if isinstance(v, ast.Dict) and "x" in _literal_tables([ast.Assign(targets=[ast.Name(id="x", ctx=ast.Store())], value=v)], {"x": 1}) and all(_is_pure(x) or isinstance(x, ast.Lambda) for x in v.values):
+            # a table written at its only use: {False: a, True: b}[bool(c)]  (the entries not chosen are
+            # pure reads: nothing is lost by not evaluating them)
+            table = v
+        elif isinstance(v, ast.Name) and v.id in self.module_tables:
+            table = self.module_tables[v.id]
+        elif isinstance(v, ast.Attribute) and isinstance(v.value, ast.Name) and v.value.id in ("self", "cls", self.class_name) and v.attr in self.class_tables:
+            table, fns = self.class_tables[v.attr], self.class_fns
+        # TABLE[self._case(x)] with _case a method that only names the case: the case distinction itself
+        k = node.slice
+        if table is not None and isinstance(k, ast.Call) and isinstance(k.func, ast.Attribute) and isinstance(k.func.value, ast.Name) and k.func.value.id == "self" and len(self.kw_helpers.get(k.func.attr, ())) == 3 and not k.keywords and all(_is_simple(a) for a in k.args):
+            params, expr, _ = self.kw_helpers[k.func.attr]
+            if len(params) == len(k.args):
+                chosen = subst(expr, dict(zip(params, k.args)))
+                keys = {kk.value: vv for kk, vv in zip(table.keys, table.values)}
+
+                def pick(e):
+                    if isinstance(e, ast.IfExp):
+                        a, b = pick(e.body), pick(e.orelse)
+                        if a is None or b is None:
+                            return None
+                        r = ast.IfExp(test=e.test, body=a, orelse=b)
+                        r._from_callee = True
+                        return r
+                    if e.value not in keys or type(e.value) not in {type(x) for x in keys if x == e.value}:
+                        return None
+                    return _table_lookup(ast.Dict(keys=[ast.Constant(value=e.value)], values=[keys[e.value]]), e, fns)
+
+                r = pick(chosen)
+                if r is not None:
+                    return ast.fix_missing_locations(ast.copy_location(r, node))
+        if table is not None and not isinstance(node.slice, (ast.Slice, ast.Tuple)) and _cheap_key(node.slice):
+            return ast.fix_missing_locations(ast.copy_location(_table_lookup(table, node.slice, fns), node))
+        return node
+
+    def visit_Compare(self, node):
+        self.generic_visit(node)
+        # k in TABLE / k not in TABLE: membership in the written-out keys
+        if len(node.ops) == 1 and isinstance(node.ops[0], (ast.In, ast.NotIn)):
+            v = node.comparators[0]
+            table = None
+            if isinstance(v, ast.Name) and v.id in self.module_tables:
+                table = self.module_tables[v.id]
+            elif isinstance(v, ast.Attribute) and isinstance(v.value, ast.Name) and v.value.id in ("self", "cls", self.class_name) and v.attr in self.class_tables:
+                table = self.class_tables[v.attr]
+            if table is not None:
+                node.comparators = [ast.copy_location(ast.Tuple(elts=[copy.deepcopy(k) for k in table.keys], ctx=ast.Load()), v)]
+        return node
 
     def visit_Attribute(self, node):
         self.generic_visit(node)
@@ -160,6 +295,16 @@ class _Expr(ast.NodeTransformer):
     def visit_Call(self, node):
         self.generic_visit(node)
         f = node.func
+        # a function of the class body taken from a class-level table and called with the object first
+        if isinstance(f, ast.Attribute) and isinstance(f.value, ast.Name) and f.value.id == "__class__" and node.args and isinstance(node.args[0], ast.Name) and node.args[0].id == "self":
+            node.func = ast.copy_location(ast.Attribute(value=ast.Name(id="self", ctx=ast.Load()), attr=f.attr, ctx=ast.Load()), f)
+            node.args = node.args[1:]
+            return node
+        # torch.Tensor.f(x, a): the method called through the class
+        if isinstance(f, ast.Attribute) and isinstance(f.value, ast.Attribute) and f.value.attr == "Tensor" and isinstance(f.value.value, ast.Name) and f.value.value.id == "torch" and node.args and not isinstance(node.args[0], ast.Starred):
+            node.func = ast.copy_location(ast.Attribute(value=node.args[0], attr=f.attr, ctx=ast.Load()), f)
+            node.args = node.args[1:]
+            f = node.func
         # tensor arithmetic / comparisons / logic spelled as functions or (out-of-place) methods -> operators;
         # x.index_select(d, idx) -> x[:, .., idx]
         r = _tensor_operator_form(node)
@@ -174,6 +319,10 @@ class _Expr(ast.NodeTransformer):
                 else:
                     new.append(a)
             node.args = new
+        # list((a, b)) -> [a, b]
+        if isinstance(f, ast.Name) and f.id in ("list", "tuple") and len(node.args) == 1 and not node.keywords and isinstance(node.args[0], (ast.Tuple, ast.List)) and not any(isinstance(x, ast.Starred) for x in node.args[0].elts):
+            cls_ = ast.List if f.id == "list" else ast.Tuple
+            return ast.copy_location(cls_(elts=list(node.args[0].elts), ctx=ast.Load()), node)
         # tuple(E(t) for t in (a, b)) -> (E(a), E(b))
         if isinstance(f, ast.Name) and f.id in ("tuple", "list") and len(node.args) == 1 and not node.keywords and isinstance(node.args[0], (ast.GeneratorExp, ast.ListComp)) and len(node.args[0].generators) == 1:
             g = node.args[0].generators[0]
@@ -227,6 +376,26 @@ class _Expr(ast.NodeTransformer):
             if elt is not None:
                 g = ast.GeneratorExp(elt=elt, generators=[ast.comprehension(target=ast.Name(id=t, ctx=ast.Store()), iter=seq, ifs=[], is_async=0)])
                 return ast.fix_missing_locations(ast.copy_location(g, node))
+        # keyword forwarding through a method of the class that chooses between literal mappings:
+        # f(a, **self._kwargs(c))  with  def _kwargs(self, c): if self.flag: return {"k": c}; return {}
+        for k in node.keywords:
+            if k.arg is None and isinstance(k.value, ast.Call) and isinstance(k.value.func, ast.Attribute) and isinstance(k.value.func.value, ast.Name) and k.value.func.value.id == "self" and len(self.kw_helpers.get(k.value.func.attr, ())) == 2 and not k.value.keywords and all(_is_simple(a) for a in k.value.args):
+                params, expr = self.kw_helpers[k.value.func.attr]
+                if len(params) != len(k.value.args) or isinstance(node.func, ast.IfExp):
+                    continue
+                chosen = subst(expr, dict(zip(params, k.value.args)))
+
+                def spread(e, k=k):
+                    if isinstance(e, ast.IfExp):
+                        r = ast.IfExp(test=e.test, body=spread(e.body), orelse=spread(e.orelse))
+                        r._from_callee = True
+                        return r
+                    c = ast.Call(func=copy.deepcopy(node.func), args=copy.deepcopy(node.args), keywords=[copy.deepcopy(x) if x is not k else ast.keyword(arg=None, value=e) for x in node.keywords])
+                    return self.visit_Call(ast.copy_location(c, node))
+
+                if isinstance(chosen, ast.IfExp):
+                    return ast.fix_missing_locations(ast.copy_location(spread(chosen), node))
+                k.value = chosen
         # keyword forwarding through a literal mapping
         if any(k.arg is None for k in node.keywords):
             kws = []
@@ -370,6 +539,462 @@ def _beta(lam, call):
 
 
 # ---------------------------------------------------------------------------------------------
+# NamedTuples used as plain records, and literal lookup tables
+# ---------------------------------------------------------------------------------------------
+
+
+def _names_stored_toplevel(stmts):
+    counts = {}
+    for st in stmts:
+        for n in _names_stored([st]) if not isinstance(st, (ast.FunctionDef, ast.ClassDef)) else [st.name]:
+            counts[n] = counts.get(n, 0) + 1
+    return counts
+
+
+def _literal_tables(stmts, counts):
+    """NAME = {const: expr, ..} written once at this level, with <= 6 constant keys"""
+    out = {}
+    for st in stmts:
+        if isinstance(st, ast.Assign) and len(st.targets) == 1 and isinstance(st.targets[0], ast.Name) and isinstance(st.value, ast.Dict) and 0 < len(st.value.keys) <= 6:
+            if counts.get(st.targets[0].id, 0) != 1:
+                continue
+            if all(isinstance(k, ast.Constant) and isinstance(k.value, (bool, str, int)) or (isinstance(k, ast.Constant) and k.value is None) for k in st.value.keys):
+                out[st.targets[0].id] = st.value
+    return out
+
+
+def _table_lookup(table, key, class_fns=()):
+    """TABLE[key] as a chain of conditional expressions over the written-out keys (the last entry is the
+    default: a key outside the table raises KeyError in the original, which no analysis here models)"""
+    keys, vals = list(table.keys), list(table.values)
+
+    def val(v):
+        v = copy.deepcopy(v)
+
+        class Fn(ast.NodeTransformer):
+            def visit_Name(self, n):
+                if isinstance(n.ctx, ast.Load) and n.id in class_fns:
+                    return ast.copy_location(ast.Attribute(value=ast.Name(id="__class__", ctx=ast.Load()), attr=n.id, ctx=ast.Load()), n)
+                return n
+
+        return Fn().visit(v)
+
+    if all(isinstance(k.value, bool) for k in keys) and len(keys) == 2:
+        t = next(v for k, v in zip(keys, vals) if k.value is True)
+        f = next(v for k, v in zip(keys, vals) if k.value is False)
+        test = copy.deepcopy(key)
+        if isinstance(test, ast.Call) and isinstance(test.func, ast.Name) and test.func.id == "bool" and len(test.args) == 1 and not test.keywords:
+            test = test.args[0]  # a test takes the truth of its operand anyway
+        out = ast.IfExp(test=test, body=val(t), orelse=val(f))
+        out._from_callee = True
+        return out
+    out = val(vals[-1])
+    for k, v in reversed(list(zip(keys, vals))[:-1]):
+        test = ast.Compare(left=copy.deepcopy(key), ops=[ast.Eq()], comparators=[copy.deepcopy(k)])
+        out = ast.IfExp(test=test, body=val(v), orelse=out)
+        out._from_callee = True
+    return out
+
+
+def _return_chain(stmts):
+    """the value of a body that only chooses what to return: if c: return A / elif .. / return B  ->  A if c else B"""
+    stmts = [x for x in stmts if not (isinstance(x, ast.Expr) and isinstance(x.value, ast.Constant))]
+    if not stmts:
+        return None
+    s = stmts[0]
+    if isinstance(s, ast.Return):
+        return s.value
+    if isinstance(s, ast.If) and _simple_test(s.test):
+        a = _return_chain(s.body)
+        b = _return_chain(s.orelse) if s.orelse else _return_chain(stmts[1:])
+        if a is None or b is None:
+            return None
+        return ast.IfExp(test=s.test, body=a, orelse=b)
+    return None
+
+
+def _kw_helpers(cls):
+    """methods of a class that only choose between literal keyword mappings"""
+    out = {}
+    for m in cls.body:
+        if isinstance(m, ast.FunctionDef) and not m.decorator_list and m.args.args and m.args.args[0].arg == "self" and not (m.args.vararg or m.args.kwarg or m.args.kwonlyargs or m.args.defaults):
+            e = _return_chain(m.body)
+            if e is None:
+                continue
+            leaves = []
+
+            def collect(x):
+                if isinstance(x, ast.IfExp):
+                    collect(x.body)
+                    collect(x.orelse)
+                else:
+                    leaves.append(x)
+
+            collect(e)
+            if all(_literal_mapping(x) is not None for x in leaves):
+                out[m.name] = ([a.arg for a in m.args.args[1:]], e)
+            elif all(isinstance(x, ast.Constant) and isinstance(x.value, (str, bool, int)) for x in leaves) and len(leaves) > 1:
+                # a method that only names the case at hand: if c: return "a" / return "b"
+                out[m.name] = ([a.arg for a in m.args.args[1:]], e, "tags")
+    return out
+
+
+def _param_lens(cls):
+    """{private method: {parameter: n}} where every call self.m(..) in the class body passes, for that parameter,
+    a written-out tuple of length n (or a local that is only ever bound to written-out tuples of length n)"""
+    methods = {m.name: m for m in cls.body if isinstance(m, ast.FunctionDef)}
+    seen = {}
+    for caller in methods.values():
+        local_lens = {}
+        bad = set()
+        for a in ast.walk(caller):
+            if isinstance(a, ast.Assign):
+                for t in a.targets:
+                    for x in ast.walk(t):
+                        if isinstance(x, ast.Name):
+                            if isinstance(t, ast.Name) and isinstance(a.value, ast.Tuple) and not any(isinstance(e, ast.Starred) for e in a.value.elts):
+                                if local_lens.setdefault(x.id, len(a.value.elts)) != len(a.value.elts):
+                                    bad.add(x.id)
+                            else:
+                                bad.add(x.id)
+            elif isinstance(a, (ast.AugAssign, ast.For, ast.With, ast.NamedExpr, ast.comprehension)):
+                t = a.target if hasattr(a, "target") else None
+                if t is not None:
+                    bad |= {x.id for x in ast.walk(t) if isinstance(x, ast.Name)}
+        params_of_caller = {x.arg for x in caller.args.args + caller.args.kwonlyargs}
+        for n in ast.walk(caller):
+            if isinstance(n, ast.Call) and isinstance(n.func, ast.Attribute) and isinstance(n.func.value, ast.Name) and n.func.value.id == "self" and n.func.attr in methods and n.func.attr.startswith("_") and not n.func.attr.startswith("__"):
+                m = methods[n.func.attr]
+                names = [a.arg for a in m.args.args[1:]]
+                got = {}
+                if any(isinstance(a, ast.Starred) for a in n.args) or any(k.arg is None for k in n.keywords):
+                    seen.setdefault(m.name, {})["<any>"] = None
+                    continue
+                for nm, a in list(zip(names, n.args)) + [(k.arg, k.value) for k in n.keywords]:
+                    if isinstance(a, ast.Tuple) and not any(isinstance(e, ast.Starred) for e in a.elts):
+                        got[nm] = len(a.elts)
+                    elif isinstance(a, ast.Name) and a.id in local_lens and a.id not in bad and a.id not in params_of_caller:
+                        got[nm] = local_lens[a.id]
+                    else:
+                        got[nm] = None
+                rec = seen.setdefault(m.name, {})
+                for nm in names:
+                    v = got.get(nm)
+                    if nm in rec and rec[nm] != v:
+                        rec[nm] = None
+                    elif nm not in rec:
+                        rec[nm] = v
+    out = {}
+    for mname, rec in seen.items():
+        if "<any>" in rec:
+            continue
+        # the method must not be referenced other than by being called on self (no callbacks / aliases)
+        refs = [x for x in ast.walk(cls) if isinstance(x, ast.Attribute) and x.attr == mname]
+        calls = {id(x.func) for x in ast.walk(cls) if isinstance(x, ast.Call)}
+        if any(id(r) not in calls for r in refs):
+            continue
+        lens = {k: v for k, v in rec.items() if v}
+        if lens:
+            out[mname] = lens
+    return out
+
+
+def _cheap_key(e):
+    """may the key expression be written out more than once? (pure reads, tests on them, bool(..), or a call
+    of a private helper of the object with such arguments)"""
+    if _is_pure(e):
+        return True
+    if isinstance(e, ast.Call):
+        f = e.func
+        if isinstance(f, ast.Name) and f.id in ("bool", "len") and len(e.args) == 1 and not e.keywords:
+            return _cheap_key(e.args[0])
+        if isinstance(f, ast.Attribute) and f.attr in ("dim", "ndimension") and not e.args and not e.keywords and _is_pure(f.value):
+            return True
+        if isinstance(f, ast.Attribute) and isinstance(f.value, ast.Name) and f.value.id in ("self", "cls") and f.attr.startswith("_") and all(_is_pure(a) for a in e.args) and not e.keywords:
+            return True
+    return False
+
+
+def _eliminate_namedtuples(tree):
+    """module-level `class R(NamedTuple): a: T; b: T` used as a record: R(x, y) -> (x, y), r.a -> r[0]
+    for locals bound to such a record (directly, or through a function of the module that returns one);
+    read-only properties defined on the record are expanded.  Records with other methods are left alone."""
+    nts = {}
+    nt_methods = {}
+    hoisted = {}
+    for st in tree.body:
+        if isinstance(st, ast.ClassDef) and any((isinstance(b, ast.Name) and b.id == "NamedTuple") or (isinstance(b, ast.Attribute) and b.attr == "NamedTuple") for b in st.bases):
+            fields, defaults, props, methods, ok = [], {}, {}, {}, True
+            for m in st.body:
+                if isinstance(m, ast.Expr) and isinstance(m.value, ast.Constant):
+                    continue
+                if isinstance(m, ast.AnnAssign) and isinstance(m.target, ast.Name):
+                    fields.append(m.target.id)
+                    if m.value is not None:
+                        defaults[m.target.id] = m.value
+                elif isinstance(m, ast.FunctionDef) and len(m.decorator_list) == 1 and isinstance(m.decorator_list[0], ast.Name) and m.decorator_list[0].id == "property":
+                    body = [x for x in m.body if not (isinstance(x, ast.Expr) and isinstance(x.value, ast.Constant))]
+                    if len(body) == 1 and isinstance(body[0], ast.Return) and body[0].value is not None and len(m.args.args) == 1:
+                        props[m.name] = (m.args.args[0].arg, m)
+                    else:
+                        ok = False
+                elif isinstance(m, ast.FunctionDef) and len(m.decorator_list) == 1 and isinstance(m.decorator_list[0], ast.Name) and m.decorator_list[0].id in ("classmethod", "staticmethod") and not m.name.startswith("__"):
+                    hoisted.setdefault(st.name, []).append(m)
+                elif isinstance(m, ast.FunctionDef) and not m.decorator_list and m.args.args and not (m.args.vararg or m.args.kwarg or m.args.kwonlyargs or m.args.defaults) and not m.name.startswith("__"):
+                    # a method that only returns an expression of the fields and its arguments
+                    body = [x for x in m.body if not (isinstance(x, ast.Expr) and isinstance(x.value, ast.Constant))]
+                    if len(body) == 1 and isinstance(body[0], ast.Return) and body[0].value is not None:
+                        methods[m.name] = m
+                    else:
+                        ok = False
+                else:
+                    ok = False
+            if ok and fields:
+                nts[st.name] = (fields, defaults, props)
+                nt_methods[st.name] = methods
+    if not nts:
+        return tree
+    # alternative constructors / helpers (classmethods, staticmethods) of a record become private functions of
+    # the module, R.f(..) -> _R__f(..): they have nothing of the class but its name
+    new_funcs = []
+    renames = {}
+    for cname, ms in hoisted.items():
+        if cname not in nts:
+            continue
+        for m in ms:
+            is_cls = m.decorator_list[0].id == "classmethod"
+            if is_cls and not m.args.args:
+                continue
+            f = copy.deepcopy(m)
+            f.decorator_list = []
+            f.name = "_%s__%s" % (cname.lstrip("_"), m.name)
+            if is_cls:
+                clsname = f.args.args[0].arg
+                f.args.args = f.args.args[1:]
+
+                class C(ast.NodeTransformer):
+                    def visit_Name(self, n):
+                        if n.id == clsname and isinstance(n.ctx, ast.Load):
+                            return ast.copy_location(ast.Name(id=cname, ctx=ast.Load()), n)
+                        return n
+
+                f = C().visit(f)
+            renames[(cname, m.name)] = f.name
+            new_funcs.append((cname, f))
+    if new_funcs:
+        class Calls(ast.NodeTransformer):
+            def visit_Attribute(self, n):
+                self.generic_visit(n)
+                if isinstance(n.value, ast.Name) and (n.value.id, n.attr) in renames and isinstance(n.ctx, ast.Load):
+                    return ast.copy_location(ast.Name(id=renames[(n.value.id, n.attr)], ctx=ast.Load()), n)
+                return n
+
+        tree = Calls().visit(tree)
+        body = []
+        for st in tree.body:
+            body.append(st)
+            if isinstance(st, ast.ClassDef):
+                body.extend(ast.fix_missing_locations(f) for c, f in new_funcs if c == st.name)
+        tree.body = body
+
+    def record(call):
+        """the tuple display a constructor call stands for, or None"""
+        f = call.func
+        name = f.id if isinstance(f, ast.Name) else None
+        make = False
+        if name is None and isinstance(f, ast.Attribute) and f.attr == "_make" and isinstance(f.value, ast.Name) and f.value.id in nts:
+            name, make = f.value.id, True
+        if name not in nts:
+            return None, None
+        if make:
+            return ("make", name), call.args[0] if len(call.args) == 1 and not call.keywords else None
+        fields, defaults, _ = nts[name]
+        if len(call.args) == 1 and isinstance(call.args[0], ast.Starred) and not call.keywords:
+            # R(*seq): the sequence itself (it must have exactly the record's length), known to be a record
+            return ("make", name), call.args[0].value
+        if any(isinstance(a, ast.Starred) for a in call.args) or any(k.arg is None for k in call.keywords) or len(call.args) > len(fields):
+            return None, None
+        vals = dict(zip(fields, call.args))
+        for k in call.keywords:
+            if k.arg not in fields or k.arg in vals:
+                return None, None
+            vals[k.arg] = k.value
+        for fld in fields:
+            if fld not in vals:
+                if fld not in defaults:
+                    return None, None
+                vals[fld] = copy.deepcopy(defaults[fld])
+        t = ast.Tuple(elts=[vals[fld] for fld in fields], ctx=ast.Load())
+        return name, t
+
+    class Ctor(ast.NodeTransformer):
+        def visit_Call(self, n):
+            self.generic_visit(n)
+            name, t = record(n)
+            if isinstance(name, tuple) and t is not None:
+                # R._make(iterable): the iterable itself, known to be a record of that type
+                t._nt = name[1]
+                return t
+            if name is not None and t is not None:
+                t = ast.copy_location(t, n)
+                t._nt = name
+                return t
+            return n
+
+    tree = Ctor().visit(tree)
+
+    # which functions of the module return a record?
+    funcs = {}
+    for n in ast.walk(tree):
+        if isinstance(n, ast.FunctionDef):
+            funcs.setdefault(n.name, []).append(n)
+
+    def nt_of(e, env):
+        if getattr(e, "_nt", None):
+            return e._nt
+        if isinstance(e, ast.Name):
+            return env.get(e.id)
+        if isinstance(e, ast.IfExp):
+            a, b = nt_of(e.body, env), nt_of(e.orelse, env)
+            return a if a == b else None
+        if isinstance(e, ast.Call):
+            f = e.func
+            fname = f.id if isinstance(f, ast.Name) else (f.attr if isinstance(f, ast.Attribute) and isinstance(f.value, ast.Name) and f.value.id in ("self", "cls") else None)
+            if fname in returns:
+                return returns[fname]
+        return None
+
+    returns = {}
+    changed = True
+    rounds = 0
+    while changed and rounds < 4:
+        changed = False
+        rounds += 1
+        for name, defs in funcs.items():
+            if name in returns or len(defs) != 1:
+                continue
+            rets = [r for r in ast.walk(defs[0]) if isinstance(r, ast.Return) and r.value is not None]
+            if not rets:
+                continue
+            env = {}
+            for a in ast.walk(defs[0]):
+                if isinstance(a, ast.Assign) and len(a.targets) == 1 and isinstance(a.targets[0], ast.Name):
+                    t = nt_of(a.value, env)
+                    if t:
+                        env[a.targets[0].id] = t
+            kinds = {nt_of(r.value, env) for r in rets}
+            if len(kinds) == 1 and None not in kinds:
+                returns[name] = kinds.pop()
+                changed = True
+
+    class Fields(ast.NodeTransformer):
+        def __init__(self):
+            self.env = {}
+
+        def visit_FunctionDef(self, fn):
+            saved = self.env
+            self.env = {}
+            for a in ast.walk(fn):
+                if isinstance(a, ast.Assign) and len(a.targets) == 1 and isinstance(a.targets[0], ast.Name):
+                    t = nt_of(a.value, self.env)
+                    if t:
+                        self.env[a.targets[0].id] = t
+            # a name bound to records of one type only
+            for a in ast.walk(fn):
+                if isinstance(a, ast.Assign) and len(a.targets) == 1 and isinstance(a.targets[0], ast.Name) and a.targets[0].id in self.env:
+                    if nt_of(a.value, self.env) != self.env[a.targets[0].id]:
+                        self.env.pop(a.targets[0].id, None)
+            self._unpack_records(fn)
+            self.generic_visit(fn)
+            self.env = saved
+            return fn
+
+        def _unpack_records(self, fn):
+            """r = f(..) with f returning a record, r read only as r.field: the canonical unpacking
+            r__a, r__b = f(..) with the fields as plain locals"""
+            for name, t in list(self.env.items()):
+                binds = [a for a in ast.walk(fn) if isinstance(a, ast.Assign) and len(a.targets) == 1 and isinstance(a.targets[0], ast.Name) and a.targets[0].id == name]
+                stores = [x for x in ast.walk(fn) if isinstance(x, ast.Name) and x.id == name and isinstance(x.ctx, (ast.Store, ast.Del))]
+                if len(binds) != 1 or len(stores) != 1 or not isinstance(binds[0].value, ast.Call) or getattr(binds[0].value, "_nt", None):
+                    continue
+                if name in {a.arg for a in fn.args.args + fn.args.kwonlyargs}:
+                    continue
+                fields, _, props = nts[t]
+                loads = [x for x in ast.walk(fn) if isinstance(x, ast.Name) and x.id == name and isinstance(x.ctx, ast.Load)]
+                field_reads = {id(x.value) for x in ast.walk(fn) if isinstance(x, ast.Attribute) and isinstance(x.ctx, ast.Load) and isinstance(x.value, ast.Name) and x.value.id == name and x.attr in fields}
+                if not loads or any(id(x) not in field_reads for x in loads):
+                    continue
+                if any(isinstance(x, (ast.FunctionDef, ast.Lambda)) and x is not fn for x in ast.walk(fn)):
+                    continue
+                new_names = {f: "%s__%s" % (name, f) for f in fields}
+                binds[0].targets = [ast.Tuple(elts=[ast.Name(id=new_names[f], ctx=ast.Store()) for f in fields], ctx=ast.Store())]
+
+                class R(ast.NodeTransformer):
+                    def visit_Attribute(self2, a):
+                        self2.generic_visit(a)
+                        if isinstance(a.value, ast.Name) and a.value.id == name and a.attr in fields and isinstance(a.ctx, ast.Load):
+                            return ast.copy_location(ast.Name(id=new_names[a.attr], ctx=ast.Load()), a)
+                        return a
+
+                R().visit(fn)
+                del self.env[name]
+
+        def visit_Call(self, n):
+            self.generic_visit(n)
+            f = n.func
+            if isinstance(f, ast.Attribute) and _is_simple(f.value) and not n.keywords and not any(isinstance(a, ast.Starred) for a in n.args):
+                t = nt_of(f.value, self.env)
+                m = nt_methods.get(t, {}).get(f.attr) if t else None
+                if m is not None and len(m.args.args) == len(n.args) + 1 and all(_is_simple(a) for a in n.args):
+                    fields = nts[t][0]
+                    selfname = m.args.args[0].arg
+                    expr = [x for x in m.body if isinstance(x, ast.Return)][0].value
+                    mapping = {selfname: f.value}
+                    mapping.update({a.arg: v for a, v in zip(m.args.args[1:], n.args)})
+                    out = subst(expr, mapping)
+                    kind = nt_of(expr, {})
+
+                    class P(ast.NodeTransformer):
+                        def visit_Attribute(self2, a):
+                            self2.generic_visit(a)
+                            if a.attr in fields and norm_dump(a.value) == norm_dump(f.value) and isinstance(a.ctx, ast.Load):
+                                return ast.Subscript(value=a.value, slice=ast.Constant(value=fields.index(a.attr)), ctx=ast.Load())
+                            return a
+
+                    out = P().visit(out)
+                    if kind:
+                        out._nt = kind
+                    return ast.fix_missing_locations(ast.copy_location(out, n))
+            return n
+
+        def visit_Attribute(self, n):
+            self.generic_visit(n)
+            if not isinstance(n.ctx, ast.Load):
+                return n
+            t = nt_of(n.value, self.env)
+            if t is None:
+                return n
+            fields, _, props = nts[t]
+            if n.attr in fields:
+                return ast.copy_location(ast.Subscript(value=n.value, slice=ast.Constant(value=fields.index(n.attr)), ctx=ast.Load()), n)
+            if n.attr in props and _is_simple(n.value):
+                selfname, pfn = props[n.attr]
+                expr = [x for x in pfn.body if isinstance(x, ast.Return)][0].value
+
+                class P(ast.NodeTransformer):
+                    def visit_Attribute(self2, a):
+                        self2.generic_visit(a)
+                        if isinstance(a.value, ast.Name) and a.value.id == selfname and a.attr in fields:
+                            return ast.Subscript(value=copy.deepcopy(n.value), slice=ast.Constant(value=fields.index(a.attr)), ctx=ast.Load())
+                        return a
+
+                return ast.copy_location(P().visit(copy.deepcopy(expr)), n)
+            return n
+
+    tree = Fields().visit(tree)
+    return ast.fix_missing_locations(tree)
+
+# ---------------------------------------------------------------------------------------------
 # statement-level rewrites
 # ---------------------------------------------------------------------------------------------
 
@@ -388,11 +1013,18 @@ def _own(body, kind):
     return out
 
 
+# parameters of the function being rewritten that every caller (within the class) passes a written-out tuple
+# of one and the same length: {name: length}
+_KNOWN_LENS = {}
+
+
 def _literal_items(it):
     """the written-out items a loop runs over: (a, b) / [a, b] / zip((a, b), (c, d)) / enumerate((a, b))"""
     seq = _literal_seq(it)
     if seq is not None:
         return seq
+    if isinstance(it, ast.Name) and it.id in _KNOWN_LENS:
+        return [ast.Subscript(value=ast.Name(id=it.id, ctx=ast.Load()), slice=ast.Constant(value=i), ctx=ast.Load()) for i in range(_KNOWN_LENS[it.id])]
     if isinstance(it, ast.Call) and isinstance(it.func, ast.Name) and not it.keywords:
         if it.func.id == "range" and 1 <= len(it.args) <= 3 and all(isinstance(a, ast.Constant) and isinstance(a.value, int) and not isinstance(a.value, bool) or (isinstance(a, ast.UnaryOp) and isinstance(a.op, ast.USub) and isinstance(a.operand, ast.Constant) and isinstance(a.operand.value, int)) for a in it.args):
             vals = [a.value if isinstance(a, ast.Constant) else -a.operand.value for a in it.args]
@@ -464,6 +1096,11 @@ class Desugar:
             if isinstance(st, ast.ImportFrom) and st.module == "operator":
                 for al in st.names:
                     self.opnames.add(al.asname or al.name)
+        try:
+            tree = _eliminate_namedtuples(tree)
+        except Exception:
+            pass  # leave the module as written: the engines will say "undecided" where they cannot follow
+        self._module_tables = _literal_tables(tree.body, _names_stored_toplevel(tree.body))
         tree.body = self.block(tree.body, None, None)
         return tree
 
@@ -491,7 +1128,26 @@ class Desugar:
         for st in stmts:
             if isinstance(st, ast.For) and tuples:
                 st.iter = self._resolve_tuple_names(st.iter, tuples)
+            if isinstance(st, (ast.Assign, ast.Return, ast.Expr)) and tuples and st.value is not None:
+                # comprehensions over a local bound to a written-out tuple
+                for g in ast.walk(st.value):
+                    if isinstance(g, (ast.GeneratorExp, ast.ListComp)) and len(g.generators) == 1:
+                        g.generators[0].iter = self._resolve_tuple_names(g.generators[0].iter, tuples)
             res = self.stmt(st, fn, cls, tuples)
+            # a record (written-out tuple from a NamedTuple constructor) of computed fields bound to a local:
+            # the fields get names of their own, so that loops / comprehensions over the record can be written out
+            if fn is not None and len(res) == 1 and isinstance(res[0], ast.Assign) and len(res[0].targets) == 1 and isinstance(res[0].targets[0], ast.Name) and isinstance(res[0].value, ast.Tuple) and getattr(res[0].value, "_nt", None) and not all(_is_simple(e) for e in res[0].value.elts) and not any(isinstance(e, ast.Starred) for e in res[0].value.elts):
+                a = res[0]
+                pre, names = [], []
+                for k, e in enumerate(a.value.elts):
+                    if _is_simple(e):
+                        names.append(e)
+                    else:
+                        nm = "%s__%d" % (a.targets[0].id, k)
+                        pre.append(ast.fix_missing_locations(ast.copy_location(ast.Assign(targets=[ast.Name(id=nm, ctx=ast.Store())], value=e), a)))
+                        names.append(ast.copy_location(ast.Name(id=nm, ctx=ast.Load()), e))
+                a.value.elts = names
+                res = pre + [a]
             out.extend(res)
             # written-out tuples bound to local names, valid until a constituent is rebound
             for r in res:
@@ -502,7 +1158,7 @@ class Desugar:
                     attrs = {x.attr for x in ast.walk(tuples[k]) if isinstance(x, ast.Attribute)}
                     if k in stored or (roots - {"self", "cls"}) & stored or attrs & stored_attrs:
                         del tuples[k]
-                if isinstance(r, ast.Assign) and len(r.targets) == 1 and isinstance(r.targets[0], ast.Name) and isinstance(r.value, (ast.Tuple, ast.List)) and r.value.elts and all(_is_simple(e) for e in r.value.elts) and fn is not None:
+                if isinstance(r, ast.Assign) and len(r.targets) == 1 and isinstance(r.targets[0], ast.Name) and isinstance(r.value, (ast.Tuple, ast.List)) and r.value.elts and all(_is_simple(e) or isinstance(e, ast.Lambda) or (isinstance(e, ast.Tuple) and all(_is_simple(x) or isinstance(x, ast.Lambda) for x in e.elts)) for e in r.value.elts) and fn is not None:
                     tuples[r.targets[0].id] = r.value
         if fn is not None:
             out = self._local_callables(out)
@@ -517,13 +1173,34 @@ class Desugar:
 
     def stmt(self, st, fn, cls, tuples=None):
         if isinstance(st, ast.ClassDef):
+            saved = (getattr(self, "_class_tables", {}), getattr(self, "_class_fns", ()), getattr(self, "_class_name", None))
+            assigned_on_self = {x.attr for x in ast.walk(st) if isinstance(x, ast.Attribute) and isinstance(x.ctx, (ast.Store, ast.Del)) and isinstance(x.value, ast.Name) and x.value.id in ("self", "cls")}
+            tables = _literal_tables(st.body, _names_stored_toplevel(st.body))
+            self._class_tables = {k: v for k, v in tables.items() if k not in assigned_on_self}
+            self._class_fns = {m.name for m in st.body if isinstance(m, ast.FunctionDef)}
+            self._class_name = st.name
+            saved_kw = getattr(self, "_kw_helpers", {})
+            self._kw_helpers = _kw_helpers(st)
+            saved_pl = getattr(self, "_param_lens", {})
+            self._param_lens = _param_lens(st)
             st.body = self.block(st.body, None, st)
+            self._kw_helpers = saved_kw
+            self._param_lens = saved_pl
+            self._class_tables, self._class_fns, self._class_name = saved
             return [st]
         if isinstance(st, (ast.FunctionDef, ast.AsyncFunctionDef)):
             saved = getattr(self, "_consts", {})
             if cls is not None:
                 self._consts = self._class_consts(cls)
-            st.body = self.block(st.body, st, None)
+            global _KNOWN_LENS
+            saved_lens = _KNOWN_LENS
+            lens = dict(getattr(self, "_param_lens", {}).get(st.name, {})) if cls is not None else {}
+            rebound = _names_stored(st.body)
+            _KNOWN_LENS = {k: v for k, v in lens.items() if k not in rebound}
+            try:
+                st.body = self.block(st.body, st, None)
+            finally:
+                _KNOWN_LENS = saved_lens
             self._consts = saved
             return [st]
         # nested blocks first
@@ -535,7 +1212,7 @@ class Desugar:
             for h in st.handlers:
                 h.body = self.block(h.body, fn, cls)
         # expressions of this statement (not of nested statements)
-        ex = _Expr(self.opnames, getattr(self, "_consts", {}))
+        ex = _Expr(self.opnames, getattr(self, "_consts", {}), getattr(self, "_module_tables", {}), getattr(self, "_class_tables", {}), getattr(self, "_class_fns", ()), getattr(self, "_class_name", None), getattr(self, "_kw_helpers", {}))
         for field, value in ast.iter_fields(st):
             if field in ("body", "orelse", "finalbody", "handlers"):
                 continue
@@ -544,7 +1221,7 @@ class Desugar:
             elif isinstance(value, list):
                 setattr(st, field, [ex.visit(v) if isinstance(v, ast.AST) else v for v in value])
         res = [st]
-        for rewrite in (self._index_copy, self._chain, self._walrus, self._reduce, self._for, self._unpack, self._cond_tuple, self._lift_callee_choice):
+        for rewrite in (self._index_copy, self._inplace_stmt, self._chain, self._walrus, self._reduce, self._for, self._unpack, self._cond_tuple, self._lift_callee_choice):
             nxt = []
             for s in res:
                 r = rewrite(s)
@@ -691,7 +1368,7 @@ class Desugar:
             taken = [subst(s, mapping) if mapping else copy.deepcopy(s) for s in last.body[:-1]] or [ast.copy_location(ast.Pass(), last)]
             test = subst(last.test, mapping) if mapping else copy.deepcopy(last.test)
             if mapping:
-                ex = _Expr(self.opnames, getattr(self, "_consts", {}))
+                ex = _Expr(self.opnames, getattr(self, "_consts", {}), getattr(self, "_module_tables", {}), getattr(self, "_class_tables", {}), getattr(self, "_class_fns", ()), getattr(self, "_class_name", None))
                 test = ex.visit(test)
                 pre = [y for s in pre for y in self.stmt(s, None, None)]
                 taken = [y for s in taken for y in self.stmt(s, None, None)]
@@ -735,7 +1412,7 @@ class Desugar:
             for old, new in ren.items():
                 m2[old] = ast.Name(id=new, ctx=ast.Load())
             val = subst(v.elt, m2)
-            val = _Expr(self.opnames, getattr(self, "_consts", {})).visit(val)
+            val = _Expr(self.opnames, getattr(self, "_consts", {}), getattr(self, "_module_tables", {}), getattr(self, "_class_tables", {}), getattr(self, "_class_fns", ()), getattr(self, "_class_name", None)).visit(val)
             out.extend(pre)
             name = _fresh("u")
             tmp.append(name)
@@ -771,32 +1448,53 @@ class Desugar:
         return [ast.fix_missing_locations(x) for x in out]
 
     # -- a conditional callee: lift the choice to the statement ------------------------------------------
-    def _lift_callee_choice(self, st):
-        if not isinstance(st, (ast.Assign, ast.AugAssign, ast.Return, ast.Expr)) or st.value is None:
+    def _lift_callee_choice(self, st, depth=0):
+        if not isinstance(st, (ast.Assign, ast.AugAssign, ast.Return, ast.Expr)) or st.value is None or depth > 6:
             return None
-        marked = [n for n in ast.walk(st.value) if isinstance(n, ast.IfExp) and getattr(n, "_from_callee", False)]
-        if len(marked) != 1 or not _is_simple(marked[0].test):
+        if isinstance(st, ast.Assign) and len(st.targets) == 1 and isinstance(st.targets[0], ast.Name) and isinstance(st.value, ast.IfExp) and _callable_chain(st.value):
+            return None  # a local bound to a choice of functions: expanded at its call sites (_local_callables)
+        # the outermost marked conditional (a chain nests in its else branch): pre-order
+        m = None
+        stack = [st.value]
+        while stack and m is None:
+            n = stack.pop(0)
+            if isinstance(n, (ast.Lambda, ast.ListComp, ast.SetComp, ast.DictComp, ast.GeneratorExp)):
+                continue
+            if isinstance(n, ast.IfExp) and getattr(n, "_from_callee", False):
+                m = n
+                break
+            stack = list(ast.iter_child_nodes(n)) + stack
+        if m is None or not _simple_test(m.test):
             return None
-        m = marked[0]
-        for n in ast.walk(st.value):
-            if isinstance(n, (ast.Lambda, ast.ListComp, ast.SetComp, ast.DictComp, ast.GeneratorExp)) and any(x is m for x in ast.walk(n)):
-                return None
 
         def variant(branch):
+            target = m
+
             class Rep(ast.NodeTransformer):
-                def visit_IfExp(self, n):
-                    if getattr(n, "_from_callee", False) and norm_dump(n) == norm_dump(m):
+                def visit(self, n):
+                    if n is target_copy[0]:
                         return copy.deepcopy(branch)
                     return self.generic_visit(n)
 
+            # copy the statement and find the copy of `m` by position
             c = copy.deepcopy(st)
-            for a, b in zip(ast.walk(st), ast.walk(c)):
-                if getattr(a, "_from_callee", False):
-                    b._from_callee = True
+            orig_nodes = list(ast.walk(st))
+            copy_nodes = list(ast.walk(c))
+            target_copy = [copy_nodes[orig_nodes.index(target)]]
             return Rep().visit(c)
 
         a, b = variant(m.body), variant(m.orelse)
-        return [ast.fix_missing_locations(ast.copy_location(ast.If(test=copy.deepcopy(m.test), body=[a], orelse=[b]), st))]
+        ra = self._lift_callee_choice(a, depth + 1) or [a]
+        rb = self._lift_callee_choice(b, depth + 1) or [b]
+        return [ast.fix_missing_locations(ast.copy_location(ast.If(test=copy.deepcopy(m.test), body=ra, orelse=rb), st))]
+
+    # -- x.mul_(a) as a statement: x *= a ------------------------------------------------------------------
+    def _inplace_stmt(self, st):
+        ops = {"add_": ast.Add, "sub_": ast.Sub, "mul_": ast.Mult, "div_": ast.Div}
+        if isinstance(st, ast.Expr) and isinstance(st.value, ast.Call) and isinstance(st.value.func, ast.Attribute) and st.value.func.attr in ops and isinstance(st.value.func.value, ast.Name) and len(st.value.args) == 1 and not st.value.keywords and not isinstance(st.value.args[0], ast.Starred):
+            tgt = ast.Name(id=st.value.func.value.id, ctx=ast.Store())
+            return [ast.fix_missing_locations(ast.copy_location(ast.AugAssign(target=tgt, op=ops[st.value.func.attr](), value=st.value.args[0]), st))]
+        return None
 
     # -- out.index_copy_(d, idx, v) as a statement: out[:, idx] = v ---------------------------------------
     def _index_copy(self, st):
@@ -826,6 +1524,29 @@ class Desugar:
         if isinstance(st, ast.Assign) and isinstance(st.value, ast.IfExp) and len(st.targets) == 1:
             v = st.value
             tuple_target = isinstance(st.targets[0], (ast.Tuple, ast.List))
+            # a, b = (f, op) if c else (g, op2) with callables: a = f if c else g; b = op if c else op2
+            leaves = []
+
+            def collect(e):
+                if isinstance(e, ast.IfExp):
+                    return collect(e.body) and collect(e.orelse)
+                if isinstance(e, ast.Tuple):
+                    leaves.append(e)
+                    return True
+                return False
+
+            if tuple_target and collect(v) and leaves and all(len(t.elts) == len(st.targets[0].elts) for t in leaves) and all(isinstance(x, ast.Name) for x in st.targets[0].elts) and all(isinstance(x, (ast.Name, ast.Attribute)) and not (isinstance(x, ast.Name) and x.id in ("None", "True", "False")) for t in leaves for x in t.elts) and all(_callable_like(x) for t in leaves for x in t.elts) and _simple_chain_tests(v):
+                out = []
+                for i, tgt in enumerate(st.targets[0].elts):
+                    def pick(e, i=i):
+                        if isinstance(e, ast.IfExp):
+                            r = ast.IfExp(test=copy.deepcopy(e.test), body=pick(e.body), orelse=pick(e.orelse))
+                            r._from_callee = True
+                            return r
+                        return copy.deepcopy(e.elts[i])
+
+                    out.append(ast.fix_missing_locations(ast.copy_location(ast.Assign(targets=[copy.deepcopy(tgt)], value=pick(v)), st)))
+                return out
             tuple_values = isinstance(v.body, ast.Tuple) and isinstance(v.orelse, ast.Tuple)
             # self.x = A if c else B : the attribute has two alternative definitions
             attr_target = isinstance(st.targets[0], ast.Attribute) and isinstance(st.targets[0].value, ast.Name) and st.targets[0].value.id == "self"
@@ -856,15 +1577,31 @@ class Desugar:
                         name, kind = st.targets[0].id, "partial"
                     elif _literal_mapping(st.value) is not None:
                         r = self._expand_kwdict(stmts, i, st.targets[0].id, _literal_mapping(st.value))
+                        if r is None and isinstance(st.value, ast.Dict) and st.targets[0].id in _literal_tables([st], {st.targets[0].id: 1}) and all(_is_simple(v) or _callable_chain(v) or isinstance(v, ast.Lambda) for v in st.value.values):
+                            r = self._expand_local_table(stmts, i, st.targets[0].id, st.value)
                         if r is not None:
                             stmts = r
                             changed = True
                             break
                         continue
-                    elif isinstance(st.value, ast.IfExp) and all(isinstance(x, (ast.Attribute, ast.Name)) for x in (st.value.body, st.value.orelse)) and (_dotted(st.value.body) or "").split(".")[0] in ("operator", "torch", "super") or (isinstance(st.value, ast.IfExp) and all(isinstance(x, ast.Attribute) and isinstance(x.value, ast.Call) and isinstance(x.value.func, ast.Name) and x.value.func.id == "super" for x in (st.value.body, st.value.orelse))):
+                    elif isinstance(st.value, ast.IfExp) and _callable_chain(st.value):
                         name, kind = st.targets[0].id, "ifexp"
+                    elif isinstance(st.value, ast.Dict) and st.targets[0].id in _literal_tables([st], {st.targets[0].id: 1}) and all(_is_simple(v) or _callable_chain(v) for v in st.value.values):
+                        r = self._expand_local_table(stmts, i, st.targets[0].id, st.value)
+                        if r is not None:
+                            stmts = r
+                            changed = True
+                            break
+                        continue
                 elif isinstance(st, ast.FunctionDef) and not st.decorator_list and self._inlinable_def(st):
                     name, kind = st.name, "def"
+                elif isinstance(st, ast.If) and _simple_test(st.test) and st.orelse:
+                    r = self._if_bound_callables(stmts, i)
+                    if r is not None:
+                        stmts = r
+                        changed = True
+                        break
+                    continue
                 if name is None:
                     continue
                 rest = stmts[i + 1 :]
@@ -876,6 +1613,9 @@ class Desugar:
                 if not uses:
                     continue
                 callee_uses = {id(n.func) for s in rest for n in ast.walk(s) if isinstance(n, ast.Call) and isinstance(n.func, ast.Name) and n.func.id == name}
+                if kind == "ifexp" and _has_none(st.value):
+                    # `f is None` / `f is not None` tests of a choice that may be "no function"
+                    callee_uses |= {id(n.left) for s in rest for n in ast.walk(s) if isinstance(n, ast.Compare) and len(n.ops) == 1 and isinstance(n.ops[0], (ast.Is, ast.IsNot)) and isinstance(n.left, ast.Name) and n.left.id == name and isinstance(n.comparators[0], ast.Constant) and n.comparators[0].value is None}
                 if any(id(u) not in callee_uses for u in uses):
                     continue
                 earlier = [n for s in stmts[:i] for n in ast.walk(s) if isinstance(n, ast.Name) and n.id == name]
@@ -888,6 +1628,122 @@ class Desugar:
                 changed = True
                 break
         return stmts
+
+    def _if_bound_callables(self, stmts, i):
+        """if c: f, g = A, B / else: f, g = A2, B2  with f, g used only as callees afterwards: the calls are
+        written as  (A if c else A2)(..)  -- the same case distinction at the place of use"""
+        st = stmts[i]
+
+        def binds(block):
+            out = {}
+            for s in block:
+                if not (isinstance(s, ast.Assign) and len(s.targets) == 1):
+                    return None
+                t, v = s.targets[0], s.value
+                if isinstance(t, ast.Name):
+                    pairs = [(t, v)]
+                elif isinstance(t, (ast.Tuple, ast.List)) and isinstance(v, (ast.Tuple, ast.List)) and len(t.elts) == len(v.elts) and all(isinstance(x, ast.Name) for x in t.elts):
+                    pairs = list(zip(t.elts, v.elts))
+                else:
+                    return None
+                for tt, vv in pairs:
+                    if tt.id in out or not (_is_simple(vv) and isinstance(vv, (ast.Name, ast.Attribute))) or isinstance(vv, ast.Name) and vv.id in ("None", "True", "False"):
+                        return None
+                    out[tt.id] = vv
+            return out
+
+        def chain(node):
+            """{name: conditional expression} for an if / elif / else that only binds references"""
+            a = binds(node.body)
+            if a is None or not _simple_test(node.test):
+                return None
+            if len(node.orelse) == 1 and isinstance(node.orelse[0], ast.If):
+                b = chain(node.orelse[0])
+            else:
+                b = binds(node.orelse)
+            if b is None or set(a) != set(b) or not a:
+                return None
+            return {k: ast.IfExp(test=copy.deepcopy(node.test), body=a[k], orelse=b[k]) for k in a}
+
+        defs = chain(st)
+        if defs is None:
+            return None
+        rest = stmts[i + 1 :]
+        others = stmts[:i] + rest
+        tests = []
+        n = st
+        while True:
+            tests.append(n.test)
+            if len(n.orelse) == 1 and isinstance(n.orelse[0], ast.If):
+                n = n.orelse[0]
+            else:
+                break
+        tested = {x.id for t in tests for x in ast.walk(t) if isinstance(x, ast.Name)}
+        for name in defs:
+            if name in _names_stored(others) or name in tested:
+                return None
+            if any(isinstance(x, ast.Name) and x.id == name for s in stmts[:i] for x in ast.walk(s)):
+                return None
+            uses = [x for s in rest for x in ast.walk(s) if isinstance(x, ast.Name) and x.id == name and isinstance(x.ctx, ast.Load)]
+            callee_uses = {id(x.func) for s in rest for x in ast.walk(s) if isinstance(x, ast.Call) and isinstance(x.func, ast.Name) and x.func.id == name}
+            if not uses or any(id(u) not in callee_uses for u in uses):
+                return None
+        # the tests and the references must mean the same where the calls are: nothing they read is rebound
+        stored_later = _names_stored(rest)
+        read = {x.id for v in defs.values() for x in ast.walk(v) if isinstance(x, ast.Name)}
+        if (read - {"self", "cls"}) & stored_later:
+            return None
+        new_rest = rest
+        for name, value in defs.items():
+            fake = ast.Assign(targets=[ast.Name(id=name, ctx=ast.Store())], value=value)
+            new_rest = self._expand_calls(new_rest, name, "ifexp", fake)
+            if new_rest is None:
+                return None
+        return stmts[:i] + new_rest
+
+    def _expand_local_table(self, stmts, i, name, table):
+        """`t = {4: f, 2: g}` bound once and used only as `t[key]` / `t.get(key)` / `t.get(key, default)` later in
+        the block: the lookups become conditional expressions over the written-out keys"""
+        others = [s for j, s in enumerate(stmts) if j != i]
+        if name in _names_stored(others) or any(isinstance(n, ast.Name) and n.id == name for s in stmts[:i] for n in ast.walk(s)):
+            return None
+        rest = stmts[i + 1 :]
+        uses = [n for s in rest for n in ast.walk(s) if isinstance(n, ast.Name) and n.id == name]
+        ok_uses = set()
+        for s in rest:
+            for n in ast.walk(s):
+                if isinstance(n, ast.Subscript) and isinstance(n.ctx, ast.Load) and isinstance(n.value, ast.Name) and n.value.id == name and not isinstance(n.slice, (ast.Slice, ast.Tuple)) and _cheap_key(n.slice):
+                    ok_uses.add(id(n.value))
+                if isinstance(n, ast.Call) and isinstance(n.func, ast.Attribute) and n.func.attr == "get" and isinstance(n.func.value, ast.Name) and n.func.value.id == name and 1 <= len(n.args) <= 2 and not n.keywords and _cheap_key(n.args[0]) and (len(n.args) == 1 or _is_simple(n.args[1])):
+                    ok_uses.add(id(n.func.value))
+        if not uses or any(id(u) not in ok_uses for u in uses):
+            return None
+        # the values are references, the keys constants: nothing is evaluated by building the table
+        stored_later = _names_stored(rest)
+        if any(isinstance(x, ast.Name) and x.id in stored_later for v in table.values for x in ast.walk(v)):
+            return None
+
+        ex = _Expr(self.opnames, getattr(self, "_consts", {}), getattr(self, "_module_tables", {}), getattr(self, "_class_tables", {}), getattr(self, "_class_fns", ()), getattr(self, "_class_name", None))
+
+        class Rep(ast.NodeTransformer):
+            def visit_Subscript(self, n):
+                self.generic_visit(n)
+                if isinstance(n.value, ast.Name) and n.value.id == name and isinstance(n.ctx, ast.Load):
+                    return ast.fix_missing_locations(ast.copy_location(_table_lookup(table, n.slice), n))
+                return n
+
+            def visit_Call(self, n):
+                self.generic_visit(n)
+                if isinstance(n.func, ast.IfExp):
+                    return ex.visit_Call(n)
+                if isinstance(n.func, ast.Attribute) and n.func.attr == "get" and isinstance(n.func.value, ast.Name) and n.func.value.id == name:
+                    default = n.args[1] if len(n.args) == 2 else ast.Constant(value=None)
+                    t2 = ast.Dict(keys=list(table.keys) + [ast.Constant(value="<default>")], values=list(table.values) + [default])
+                    return ast.fix_missing_locations(ast.copy_location(_table_lookup(t2, n.args[0]), n))
+                return n
+
+        new_rest = [Rep().visit(s) for s in rest]
+        return stmts[:i] + self._post(new_rest)
 
     def _expand_kwdict(self, stmts, i, name, pairs):
         """`d = {..literal keys..}` used only as `f(**d)` later in the block: the keywords written out"""
@@ -946,7 +1802,7 @@ class Desugar:
 
     def _expand_calls(self, rest, name, kind, defn):
         """the statements `rest` with every call of `name` expanded, or None when some call cannot be"""
-        ex = _Expr(self.opnames, getattr(self, "_consts", {}))
+        ex = _Expr(self.opnames, getattr(self, "_consts", {}), getattr(self, "_module_tables", {}), getattr(self, "_class_tables", {}), getattr(self, "_class_fns", ()), getattr(self, "_class_name", None))
         failed = []
 
         def expr_form(call):
@@ -958,14 +1814,24 @@ class Desugar:
                     pass
                 return ast.Call(func=copy.deepcopy(p.args[0]), args=[copy.deepcopy(a) for a in p.args[1:]] + list(call.args), keywords=[copy.deepcopy(k) for k in p.keywords] + list(call.keywords))
             if kind == "ifexp":
-                v = defn.value
-                if not _is_simple(v.test):
+                def build(v):
+                    if isinstance(v, ast.IfExp):
+                        if not _simple_test(v.test):
+                            raise ValueError("test")
+                        # a call happens only where the choice is a function (the uses test `f is not None`)
+                        if _all_none(v.body):
+                            return build(v.orelse)
+                        if _all_none(v.orelse):
+                            return build(v.body)
+                        out = ast.IfExp(test=copy.deepcopy(v.test), body=build(v.body), orelse=build(v.orelse))
+                        out._from_callee = True
+                        return out
+                    return ast.Call(func=copy.deepcopy(v), args=copy.deepcopy(call.args), keywords=copy.deepcopy(call.keywords))
+
+                try:
+                    return build(defn.value)
+                except ValueError:
                     return None
-                a = ast.Call(func=copy.deepcopy(v.body), args=copy.deepcopy(call.args), keywords=copy.deepcopy(call.keywords))
-                b = ast.Call(func=copy.deepcopy(v.orelse), args=copy.deepcopy(call.args), keywords=copy.deepcopy(call.keywords))
-                out = ast.IfExp(test=copy.deepcopy(v.test), body=a, orelse=b)
-                out._from_callee = True
-                return out
             if kind == "def":
                 body = [s for s in defn.body if not (isinstance(s, ast.Expr) and isinstance(s.value, ast.Constant))]
                 if len(body) == 1:
@@ -975,6 +1841,17 @@ class Desugar:
             return None
 
         class Rep(ast.NodeTransformer):
+            def visit_Compare(self, n):
+                if kind == "ifexp" and len(n.ops) == 1 and isinstance(n.ops[0], (ast.Is, ast.IsNot)) and isinstance(n.left, ast.Name) and n.left.id == name and isinstance(n.comparators[0], ast.Constant) and n.comparators[0].value is None:
+                    if not _simple_chain_tests(defn.value):
+                        failed.append(n)
+                        return n
+                    t = _is_set_test(defn.value)
+                    if isinstance(n.ops[0], ast.Is):
+                        t = ast.UnaryOp(op=ast.Not(), operand=t)
+                    return ast.fix_missing_locations(ast.copy_location(t, n))
+                return self.generic_visit(n)
+
             def visit_Call(self, n):
                 self.generic_visit(n)
                 if isinstance(n.func, ast.Name) and n.func.id == name:
@@ -1017,7 +1894,7 @@ class Desugar:
                         s.target = first.targets[0]
                         s.body = s.body[1:] or [ast.copy_location(ast.Pass(), s)]
             rr = [s]
-            for rewrite in (self._unpack, self._cond_tuple, self._lift_callee_choice):
+            for rewrite in (self._inplace_stmt, self._unpack, self._cond_tuple, self._lift_callee_choice):
                 nxt = []
                 for q in rr:
                     r = rewrite(q)
